@@ -191,6 +191,9 @@ func (c *wsConnection) init() bool {
 			c.initPayload = make(InitPayload)
 			err := json.Unmarshal(m.payload, &c.initPayload)
 			if err != nil {
+				// do not leave the hijacked connection open and silent
+				c.sendConnectionError("invalid json")
+				c.close(websocket.CloseProtocolError, "decoding error")
 				return false
 			}
 		}
